@@ -461,6 +461,22 @@ class Schema(dict, metaclass=LogicalMeta):
         #
         # return super().update(values)
 
+    def setdefault(self, key: str, default=None):
+        # dict.setdefault would store the raw value under the raw key
+        if key in self:
+            return self[key]
+        self.__setitem__(key, default)
+        try:
+            return self[key]
+        except KeyError:
+            # ignored addition or a no_output value
+            return default
+
+    def __ior__(self, other):
+        # dict.__ior__ would bypass the parsing setters
+        self.update(other)
+        return self
+
     # def __copy__(self):
     #     return self.copy()
 
